@@ -45,7 +45,8 @@ def run(ctx):
     try:
         reg = ref.registered()
         declared = {c["name"]: (1.0 if c.get("weight") is None else float(c["weight"])) for c in spec["classes"]}
-        any_weighted = any(c.get("weight") is not None for c in spec["classes"])
+        # only weights declared on classes that are part of the grammar make it a weighted grammar
+        any_weighted = any(c.get("weight") is not None for c in spec["classes"] if c["name"] in reg)
         abstracts = [c["name"] for c in spec["classes"] if c["kind"] in ("abc", "deco") and c["name"] in reg]
         ctx.sample = {"grammar_source": b.source.split("from sim.flaky import Flaky\n", 1)[-1].strip(), "considered": spec["considered"]}
         for a in abstracts:
@@ -65,11 +66,13 @@ def run(ctx):
                 ctx.faults["carry_over"] += 1
             w = {b.name_of[t]: v for t, v in g.get_weights().items() if t in b.name_of}
             if not any_weighted:
-                # unweighted grammar: every production counts as weight one
-                bad = {n: v for n, v in w.items() if v != 1.0}
-                if bad:
-                    ctx.violate("C19/unweighted-grammar-has-weights", f"no class is weighted but get_weights() reports {bad}")
-                    return
+                # no class of the grammar declares a weight: every production counts the same (raw 1.0, or normalised when a
+                # weighted class outside the grammar was passed in considered_subtypes)
+                for a in abstracts:
+                    vals = [w.get(p) for p in ref.productions(a, reg)]
+                    if vals and (any(v is None for v in vals) or max(vals) - min(vals) > 1e-9):
+                        ctx.violate("C19/unweighted-grammar-has-unequal-weights", f"no class of the grammar is weighted but {a} -> {vals}")
+                        return
             else:
                 for a in abstracts:
                     prods = ref.productions(a, reg)
